@@ -1,0 +1,58 @@
+//go:build verif
+
+// Contracts (machine-checked by /verif/govc) for package collect.
+// This file contains comments only; it is compiled only with the build tag "verif" and adds no code.
+
+package collect
+
+// ---------------------------------------------------------------------------------------------
+// C13: the static bi-map is a pair of mutually inverse maps; non-injective pair lists are rejected.
+// The iterator `pairs` is an abstract finite sequence: seqlen(pairs), seqkey(pairs,i), seqval(pairs,i).
+// ---------------------------------------------------------------------------------------------
+
+//@ contract NewStaticBiMap
+//@   props C13
+//@   requires expectedSize >= 0
+//@   ensures @rejected: result1 != nil ==> result0 == nil
+//@   ensures @dup_rejected: (exists i int, j int :: 0 <= i && i < j && j < seqlen(pairs) &&
+//@              (seqkey(pairs, i) == seqkey(pairs, j) || seqval(pairs, i) == seqval(pairs, j))) ==> result1 != nil
+//@   ensures @linked: result1 == nil ==> result0 == forward && forward.inverse == backward && backward.inverse == forward
+//@   ensures @contents: result1 == nil ==> forall i int :: { seqkey(pairs, i) } 0 <= i && i < seqlen(pairs) ==>
+//@              seqkey(pairs, i) in forward.contents && forward.contents[seqkey(pairs, i)] == seqval(pairs, i)
+//@   ensures @only: result1 == nil ==> forall k K :: { k in forward.contents } k in forward.contents ==>
+//@              exists i int :: 0 <= i && i < seqlen(pairs) && seqkey(pairs, i) == k
+//@   ensures @inverse_fwd: result1 == nil ==> forall k K :: { k in forward.contents } k in forward.contents ==>
+//@              forward.contents[k] in backward.contents && backward.contents[forward.contents[k]] == k
+//@   ensures @inverse_bwd: result1 == nil ==> forall v V :: { v in backward.contents } v in backward.contents ==>
+//@              backward.contents[v] in forward.contents && forward.contents[backward.contents[v]] == v
+//@   assigns nothing
+//@   loop 1 invariant forward != nil && backward != nil && fresh(forward) && fresh(backward) && forward != backward
+//@   loop 1 invariant forward.contents != nil && backward.contents != nil && fresh(forward.contents) && fresh(backward.contents) && forward.contents != backward.contents
+//@   loop 1 invariant forward.inverse == backward && backward.inverse == forward
+//@   loop 1 invariant forall i int :: { seqkey(pairs, i) } 0 <= i && i < $i ==> seqkey(pairs, i) in forward.contents && forward.contents[seqkey(pairs, i)] == seqval(pairs, i)
+//@   loop 1 invariant forall k K :: { k in forward.contents } k in forward.contents ==> exists i int :: 0 <= i && i < $i && seqkey(pairs, i) == k
+//@   loop 1 invariant forall k K :: { k in forward.contents } k in forward.contents ==> forward.contents[k] in backward.contents && backward.contents[forward.contents[k]] == k
+//@   loop 1 invariant forall v V :: { v in backward.contents } v in backward.contents ==> backward.contents[v] in forward.contents && forward.contents[backward.contents[v]] == v
+//@   loop 1 invariant forall i int, j int :: 0 <= i && i < j && j < $i ==> seqkey(pairs, i) != seqkey(pairs, j) && seqval(pairs, i) != seqval(pairs, j)
+
+// Lookups are plain map reads (nil-safe); Inverse is the linked partner.
+//@ contract (*staticBiMap).GetExists
+//@   props C13
+//@   ensures m == nil ==> !result1
+//@   ensures m != nil ==> result1 == (key in m.contents) && (result1 ==> result0 == m.contents[key])
+//@   assigns nothing
+//@ contract (*staticBiMap).Inverse
+//@   props C13
+//@   ensures m == nil ==> result == nil
+//@   ensures m != nil ==> result == m.inverse
+//@   assigns nothing
+//@ contract (*staticBiMap).AsMap
+//@   props C13
+//@   ensures m == nil ==> result == nil
+//@   ensures m != nil ==> result == m.contents
+//@   assigns nothing
+//@ contract (*staticBiMap).Len
+//@   props C13
+//@   ensures m == nil ==> result == 0
+//@   ensures m != nil ==> result == len(m.contents)
+//@   assigns nothing
